@@ -1081,6 +1081,9 @@ decl(struct scope *s, struct func *f)
 				scopeputdecl(s, mkdecl(name, DECLTYPE, t, tq, LINKNONE));
 			else if (!typesame(prior->type, t) || prior->qual != tq)
 				error(&tok.loc, "typedef '%s' redefined with different type", name);
+			/* 6.8p3: array sizes are evaluated when the declaration is reached */
+			if (f)
+				funcvla(f, t);
 			break;
 		case DECLOBJECT:
 			if (align && align < t->align)
